@@ -532,7 +532,20 @@ func nilAnswer(fn *ssa.Function, idx int) (string, bool) {
 			if len(t.Results) != 1 {
 				return "", false
 			}
-			return core.ConstString(t.Results[0])
+			if k, ok := core.ConstString(t.Results[0]); ok {
+				return k, true
+			}
+			// handed on to another function of the module: what that one answers for nil
+			if call, ok := t.Results[0].(*ssa.Call); ok {
+				if sc := call.Call.StaticCallee(); sc != nil && len(sc.Blocks) > 0 && sc != fn {
+					for ai, a := range call.Call.Args {
+						if isP(a) && ai < len(sc.Params) {
+							return nilAnswer(sc, ai)
+						}
+					}
+				}
+			}
+			return "", false
 		case *ssa.If:
 			switch cnd := t.Cond.(type) {
 			case *ssa.Extract:
